@@ -42,6 +42,10 @@ def post_order_lexicographic(top: str, ignore_pathspec: pathspec.PathSpec = None
                 logger.verbose(f"ignoring filepath {file_path}")
             continue
         path = join(top, name)
+        if isdir(path) and os.path.islink(path):
+            # links to folders are not followed (see below), so there is nothing to record or to hash for them either
+            logger.verbose(f"not following link to folder {path}")
+            continue
         children.append((name, isdir(path)))
 
     # if directory, yield children recursively in post order until exhausted.
